@@ -48,6 +48,12 @@ MinimalityDirect == given = "none" /\ W0 <= NWMAX =>
    /\ \A g \in 0..(F - 1) : \E V \in Vs : V % 2^(S - g) # 0
    /\ \A u \in 0..(W0 - 1) : ~B!HoldsAll(Vs, signed, F, u)
    /\ B!HoldsAll(Vs, signed, F, W0)
+\* beyond the cap: the capped format keeps the whole integer part (so every value is quantized with error below one LSB);
+\* only fraction bits are given up.  (Before the repair D24 the integer-bit loop stopped at the cap measured on the SCALED
+\* values, so long fractions next to large values lost integer bits: TLC refutes this lemma for the old loop limit.)
+CapKeepsIntegerPart == (given = "none" /\ W0 > NWMAX /\ NI + sg <= NWMAX) =>
+   Got = [s |-> signed, w |-> NWMAX, f |-> NWMAX - sg - NI]
+I_CapKeepsIntegerPart == ph = 0 \/ CapKeepsIntegerPart
 I_AlgoIsMinimal == ph = 0 \/ AlgoIsMinimal
 I_NeverAboveCap == ph = 0 \/ NeverAboveCap
 I_MinimalityDirect == ph = 0 \/ MinimalityDirect
